@@ -101,10 +101,10 @@ def make_scenarios(ctx, lines):
     clean = [ln for ln in lines if all(d == "ack" for d in ln["decs"])]
     faulty = [ln for ln in lines if not all(d == "ack" for d in ln["decs"])]
     rnd.shuffle(faulty)
-    n_single = 150 if ctx.quick else 1500
-    n_multi = 40 if ctx.quick else 400
-    n_real = 8 if ctx.quick else 60
-    n_indep = 4 if ctx.quick else 18
+    n_single = 150 if ctx.quick else 3500
+    n_multi = 40 if ctx.quick else 800
+    n_real = 8 if ctx.quick else 100
+    n_indep = 4 if ctx.quick else 30
     chosen = clean + faulty[:max(0, n_single - len(clean))]
     out = []
     for i, ln in enumerate(chosen):
